@@ -130,6 +130,12 @@ func getEndOfLastValuePositionInFile(fname string, startPos int64) (int64, error
 			if err != nil || telnet {
 				continue // keep reading backwards
 			}
+			if pos+int64(n) > startPos {
+				// The command reaches past the position up to which the
+				// log was compared with the leader's: its tail is
+				// unverified, so the log is cut in front of it.
+				return pos, nil
+			}
 			return pos + int64(n), nil
 		}
 	}
